@@ -278,6 +278,15 @@ func buildYDd(f *astFunc, cb *types.Var, depth int) *ydFunc {
 					if id, ok := ast.Unparen(a).(*ast.Ident); ok && info.Uses[id] == cb {
 						fo, _ := typeutil.Callee(info, c).(*types.Func)
 						g := ydDecls[fo]
+						if fo == nil && len(c.Args) == 1 {
+							// handed as it is to an iterator value — seq(yield): the iterator makes the callback calls and
+							// stops when told to; nothing may follow the call here
+							if sig, ok := info.TypeOf(c.Fun).Underlying().(*types.Signature); ok && sig.Params().Len() == 1 && sig.Results().Len() == 0 {
+								y.delegs = append(y.delegs, &cbSite{call: c, block: b, idx: i, deleg: true, terminal: true, what: "iterator value called with the callback itself"})
+								callee[id] = true
+								continue
+							}
+						}
 						if fo == nil || g == nil || g == f {
 							continue
 						}
